@@ -251,6 +251,12 @@ def run_inputs(ids, onames, route, res, tmpdir):
         sc, pps = spec.build(sp)
         if route == "assign":
             sc.assign_obstacles_to_lanelets()
+        elif route == "assign-move-network-assign":
+            # assigned where it was built, then the road alone is moved far away and the obstacles are assigned again: they are on no lanelet now
+            import numpy as np
+            sc.assign_obstacles_to_lanelets()
+            sc.lanelet_network.translate_rotate(np.array([500.0, 300.0]), 0.0)
+            sc.assign_obstacles_to_lanelets()
         elif route == "shift-then-assign":
             # the whole scenario is moved by a pure translation first (lookups were made before, so every derived structure exists): lanelets and
             # obstacles move together, the assignment is the one of the unmoved scenario
@@ -267,6 +273,17 @@ def run_inputs(ids, onames, route, res, tmpdir):
             sc, _ = CommonRoadFileReader(fn, file_format=ff).open(lanelet_assignment=True)
     except Exception as e:
         res.violation(f"C07|route:{route}|raises:{type(e).__name__}", f"{case}: {e!r}", case)
+        return
+    if route == "assign-move-network-assign":
+        # obstacle side only (what the second assignment leaves in the lanelets' registries from the first one is not stated)
+        for n in onames:
+            cen, shp, _ = observed(sc, P[n]["id"])
+            for t in horizon(P[n]):
+                res.evals += 1; res.nontrivial += 1
+                if cen.get(t) or shp.get(t):
+                    res.violation(f"C07|route:{route}|{P[n]['role']}|{'initial' if t == P[n]['initial_state']['attrs']['time_step'] else 'trajectory'}|assignment-to-lanelets-that-are-elsewhere",
+                                  f"{case} obstacle {n} t={t}: center {cen.get(t)} shape {shp.get(t)} although every lanelet was moved away by (500, 300)", case)
+        res.outcomes[f"inputs:{route}"] += 1
         return
     ok = check_assigned(sc, ids, P, route, res, case)
     # removing every contained obstacle must work and leave clean registries
@@ -501,7 +518,7 @@ def units(tier):
     names = sorted(pool())
     u = []
     for ni, ids in enumerate(NETWORKS):
-        for r in ("assign", "xml", "pb", "shift-then-assign"):
+        for r in ("assign", "xml", "pb", "shift-then-assign", "assign-move-network-assign"):
             for n in names:
                 u.append({"k": "inputs", "ids": ids, "obstacles": [n], "route": r})
         pairs = list(itertools.combinations(names, 2))
